@@ -64,7 +64,7 @@ def run(ctx):
                 'or a cut that dropped a positive candidate')
     ctx.assumptions += ['floating-point logaddexp/exp/log agree with exact arithmetic within 1e-7 relative (D3)',
                         'np.argpartition returns some top-k set (IsTopK); cases with cut margin < 1e-6 are skipped']
-    n = 350 if ctx.quick() else 8000
+    n = 900 if ctx.quick() else 12000
     reqs, impl = [], []
     for it in range(n):
         rows = pb.gen_matrix(rng)
@@ -85,6 +85,12 @@ def run(ctx):
         ctx.evaluations += 1
         inp = dict(weights=rows, k=k, pruning_selector=pruning, unnormalised=unnorm)
         dec, letters = run_real(CTCPrefixLogRawNumpyDecoder, BLANK_SYMBOL, rows, k, pruning)
+        if rng.random() < 0.3:   # the decoder object has decoded another line before
+            inp['decoder_reused'] = True
+            try:
+                dec(pb.to_logits(pb.gen_matrix(rng, C=C)))
+            except Exception:
+                pass
         try:
             bag = dec(L)
             got = hyps_of(bag)
@@ -124,8 +130,23 @@ def run(ctx):
                 ctx.count('unpruned_exact_checked')
         thr = F(pb.E10) if pruning else F(0)
         ref, margin = pb.ref_prefix_beam(P, k, thr, blank)
+        if len(got) > k:
+            ctx.violation('beam-size', 'more than k hypotheses returned', inp, len(got), k)
         if margin is not None and margin < F(1, 10 ** 6):
-            ctx.count('ties_skipped')
+            # (near-)tie at the cut: the result must be the outcome of SOME way of breaking the ties
+            legal = pb.ref_prefix_beam_all(P, k, thr, blank)
+            if legal is None:
+                ctx.count('ties_skipped')
+            else:
+                ctx.count('ties_enumerated')
+                gotd = {tr: vis for tr, vis, _ in got}
+                match = [b for b in legal if set(b) == set(gotd)]
+                if not match:
+                    ctx.violation('not-prefix-beam-search:tie', 'result is not the outcome of prefix beam search keeping k prefixes under any tie-break',
+                                  inp, sorted(gotd), [sorted(b) for b in legal[:6]])
+                elif not any(all(close(math.exp(gotd[tr]), float(a + b2)) for tr, (a, b2) in b.items()) for b in match):
+                    ctx.violation('score-mismatch:tie', 'scores differ from prefix beam search under every tie-break', inp,
+                                  {str(t): math.exp(v) for t, v in gotd.items()})
         else:
             gotd = {tr: vis for tr, vis, _ in got}
             if set(gotd) != set(ref):
